@@ -271,14 +271,17 @@ class Path:
             return False
         return self.choose([cond, Not(cond)]) == 0
 
-    def branch_truthy(self, v):
-        """Branch on the truthiness of a value; for ints the true side gets a skolem witness bit (DESIGN 2.4)."""
+    def truth(self, v):
+        """Truthiness of a value as a formula; for a symbolic int x the fact `x != 0 -> bit(x, w)` with a fresh
+        skolem witness w is added (every non-zero int has a set bit; DESIGN 2.4)."""
         c = truthy(v)
-        r = self.branch(c)
-        if r and isinstance(v, IntV) and not z3.is_int_value(v.t):
+        if isinstance(v, IntV) and not z3.is_int_value(v.t):
             w = self.fresh_int('w')
-            self.pc.append(And(w >= 0, bits.bit(v.t, w)))
-        return r
+            self.pc.append(Implies(v.t != 0, And(w >= 0, bits.bit(v.t, w))))
+        return c
+
+    def branch_truthy(self, v):
+        return self.branch(self.truth(v))
 
 
 class LoopSpec:
@@ -342,6 +345,16 @@ class Engine:
         for f in fs:
             s.add(f)
         return s.check() != z3.unsat
+
+    def run_lemma(self, prove):
+        """A lemma unit: no code, `prove(path)` posts the goals (each is a VC from the axioms alone)."""
+        path = Path(self, [])
+        try:
+            prove(path)
+        except PathEnd:
+            pass
+        self.lemma_pc = list(path.pc)
+        return list(self.vcs.values())
 
     def run(self, extracted, harness, max_paths=400):
         """harness(path) -> (env, loops, finish) where finish(path, env, outcome) records post obligations.
@@ -576,16 +589,43 @@ class Interp:
             if it.facts:
                 p.assume(it.facts(k))
             self.assign(st.target, item, env)
+            n_out = len(p.out)
+            ys = getattr(spec, 'yields', None)
+            if ys is not None:
+                ycond, yval = ys(EnvView(env, p), k)        # evaluated in the state at the start of the iteration
             try:
                 self.exec_block(st.body, env)
             except _Continue:
                 pass
             except _Break:
                 raise Unsupported('break in contract for-loop')
+            if ys is not None:
+                # the loop is a filter/map of its iterable: iteration k yields exactly `yval` iff `ycond`
+                new = p.out[n_out:]
+                p.oblige('yield#%d/count' % n, 'yield', BoolVal(len(new) <= 1))
+                p.oblige('yield#%d/iff' % n, 'yield', ycond == BoolVal(len(new) == 1))
+                if len(new) == 1:
+                    p.oblige('yield#%d/value' % n, 'yield', self.values_equal(new[0], yval))
+            elif len(p.out) != n_out:
+                raise Unsupported('yield inside a contract loop without a yields clause')
             for nm, f in spec.invariant(EnvView(env, p), k + 1):
                 p.oblige('inv.preserve#%d/%s' % (n, nm), 'inv.preserve', f)
             raise PathEnd('loop body done')
         p.assume(k == it.length)
+
+    def values_equal(self, a, b):
+        """Structural equality of a computed value with a specification value (tuples element-wise, ints by term)."""
+        if isinstance(a, IntV) and isinstance(b, IntV):
+            return And(a.t == b.t, BoolVal(a.tag == b.tag or b.tag is None))
+        if isinstance(a, BoolV) and isinstance(b, BoolV):
+            return a.t == b.t
+        if isinstance(a, (TupleV, ListV)) and type(a) is type(b) and len(a.items) == len(b.items):
+            return And(*[self.values_equal(x, y) for x, y in zip(a.items, b.items)]) if a.items else BoolVal(True)
+        if isinstance(a, ObjV) and isinstance(b, ObjV) and getattr(a, 'ident', None) is not None and getattr(b, 'ident', None) is not None:
+            return a.ident == b.ident
+        if a is b:
+            return BoolVal(True)
+        return BoolVal(False)
 
     def assign(self, tgt, v, env):
         if isinstance(tgt, ast.Name):
@@ -659,7 +699,7 @@ class Interp:
             return StrV(None)
         if isinstance(node, ast.UnaryOp):
             if isinstance(node.op, ast.Not):
-                return BoolV(Not(truthy(self.eval(node.operand, env))))
+                return BoolV(Not(self.path.truth(self.eval(node.operand, env))))
             v = self.eval(node.operand, env)
             if isinstance(node.op, ast.Invert) and isinstance(v, IntV):
                 return IntV(bits.bnot(v.t), v.tag)
@@ -736,6 +776,14 @@ class Interp:
             raise Unsupported('nested comprehension')
         g = node.generators[0]
         it = self.eval(g.iter, env)
+        if isinstance(it, (IterV, SeqV)) and not g.ifs and isinstance(node, (ast.GeneratorExp, ast.ListComp)):
+            # element-wise closed form of a pure map over a contract iterable: same length, k-th element = elt[x := it[k]]
+            def at(k, _it=it, _env=dict(env)):
+                inner = dict(_env)
+                self.assign(g.target, _it.at(k), inner)
+                return self.eval(node.elt, inner)
+            facts = getattr(it, 'facts', None)
+            return IterV(at, it.length, 'map(%s)' % it.name, facts)
         if not isinstance(it, (TupleV, ListV)):
             raise Unsupported('comprehension over %s' % type(it).__name__)
         out = []
@@ -814,6 +862,9 @@ class Interp:
             f = m.get(type(op))
             if f is None:
                 raise Unsupported('int comparison %s' % type(op).__name__)
+            if isinstance(op, (ast.Eq, ast.NotEq)) and not (z3.is_int_value(a.t) or z3.is_int_value(b.t)):
+                # lemma instance B9 (extensionality on naturals): distinct naturals differ in some bit
+                self.path.assume(bits.ext_instance(a.t, b.t, self.path.fresh_int('wext')))
             return f(a.t, b.t)
         if isinstance(op, (ast.Is, ast.IsNot)):
             if isinstance(a, NoneV) or isinstance(b, NoneV):
